@@ -4,6 +4,7 @@ from harness.gen import scenarios
 
 ID = "C07"
 PROP_FILE = "C07.v"
+SOFT_PINS = "core"
 TRANSLATORS = ["unicode_tables", "tables"]
 RULE = ("70% directed smart-sleep scenarios (harness/gen/scenarios.sleep_history: 2-3 nodes of presented version never / 1.4 / "
         "1.5.1 / = gateway / 2.3 on a 2.0, 2.1 or 2.2 gateway, early wake-up announcements, then 20-60 ops interleaving controller "
